@@ -481,7 +481,7 @@ def handle_violation(exe, engine, prop, v, tree):
     if res[0] != res[1] or res[0] != want:
         log('GATE FAILED: seed %s af=%s: batch=%s replays=%s' % (seed, af, want, res))
         return None, 'nondet'
-    m = Minimiser(exe, prop, v['oracle'], v['sig'], af, workdir)
+    m = Minimiser(exe, prop, v['oracle'], v['sig'], af, workdir, budget=(10 if v['kind'] == 4 else 350))
     mini = m.minimise([l.copy() for l in lines])
     os.makedirs(REPLAY_DIR, exist_ok=True)
     sigslug = re.sub(r'[^A-Za-z0-9]+', '-', v['sig'])[:40].strip('-')
